@@ -84,12 +84,47 @@ def rs_of(kind, seed):
 
 
 def model_key(c):
+    if c.get("desc"):
+        d = c["desc"]
+        small = [{k: float(f"{v:.4g}") for k, v in (dd.get("params") or {**dd["fixed"], **{p: co[1][0] for p, co in dd["deps"].items()}}).items()}
+                 for dd in d["dims"] if dd["family"] in ("expweibull", "gengamma")]
+        return f"extreme-shape n_dim={d['n_dim']} families={','.join(d['families'])} params={small} seed={c['seed']}"
     return (f"n_dim={c['n_dim']} cond={c['cond']} families={','.join(c['families'])} shapes={c['sh']} "
             + (f"constants={c['style']} " if c.get("style") else "") + f"seed={c['seed']}")
 
 
+def extreme_params(fam, rng):
+    """the region where scipy's rvs underflows: exponentiated Weibull with delta 1e-3..1e-2 and
+    beta*delta about 0.5; generalized gamma with m 1e-3..2e-2 and a large c (c*m about 1)"""
+    if fam == "expweibull":
+        delta = float(10 ** rng.uniform(-3, -2))
+        return {"alpha": float(rng.uniform(0.6, 2.0)), "beta": float(rng.uniform(0.35, 0.7)) / delta, "delta": delta}
+    m = float(10 ** rng.uniform(-3, math.log10(2e-2)))
+    return {"m": m, "c": float(rng.uniform(0.7, 1.4)) / m, "lambda_": float(rng.uniform(0.5, 2.0))}
+
+
+def extreme_description(rng, variant):
+    """joint models with such a variable: unconditional (0, 3), conditional with explicit parameters
+    (constant small shape, varying scale) on a Weibull parent (1, 2), 3-D with both (3)"""
+    ew, gg = extreme_params("expweibull", rng), extreme_params("gengamma", rng)
+    ew_c = {"family": "expweibull", "fixed": {}, "deps": {"alpha": ["abslinear", [ew["alpha"], 0.3]],
+                                                            "beta": ["const", [ew["beta"]]], "delta": ["const", [ew["delta"]]]}}
+    gg_c = {"family": "gengamma", "fixed": {"m": gg["m"]}, "deps": {"c": ["const", [gg["c"]]],
+                                                                     "lambda_": ["asym3", [gg["lambda_"], 0.8, 0.7]]}}
+    par = {"family": "weibull", "params": {"alpha": 1.8, "beta": 1.5, "gamma": 0.2}}
+    child = {"family": "lognormal", "fixed": {"sigma": 0.4}, "deps": {"mu": ["loglinear", [0.3, 0.2]]}}
+    dims = [[{"family": "expweibull", "params": ew}, child], [par, ew_c], [par, gg_c],
+            [{"family": "gengamma", "params": gg}, ew_c, {"family": "normal", "fixed": {}, "deps": {
+                "mu": ["tanh3", [0.5, 0.8, 0.6]], "sigma": ["const", [0.7]]}}]][variant]
+    n = len(dims)
+    return {"n_dim": n, "cond": [None] + list(range(n - 1)), "families": [d["family"] for d in dims],
+            "shapes": [0] + [2] * (n - 1), "dims": dims}
+
+
 def get_model(c):
     vc = import_virocon()
+    if c.get("desc"):
+        return M.from_description(vc, c["desc"]), c["desc"]
     desc = M.describe(np.random.default_rng(c["seed"]), c["n_dim"], c["cond"], c["families"], c["sh"])
     if c.get("style"):
         M.constant_style(desc, c["style"])
@@ -104,6 +139,8 @@ def ks_task(c):
         if c["n_dim"] == 1:
             vc = import_virocon()
             desc = M.describe(np.random.default_rng(c["seed"]), 1, [None], c["families"], None)
+            if c.get("params"):
+                desc["dims"][0]["params"] = dict(c["params"])
             dist = M.dist_class(vc, c["families"][0])(**desc["dims"][0]["params"])
             with warnings.catch_warnings():
                 warnings.simplefilter("ignore")
@@ -429,6 +466,10 @@ def _pool_objects(seed):
         desc = M.describe(rng, len(cond), cond, fams, sh)
         M.constant_style(desc, style)
         objs.append((f"GHM cond={cond} families={','.join(fams)} constants={style}", M.from_description(vc, desc)))
+    for fam in ("expweibull", "gengamma"):        # the small-shape region (samples through the icdf)
+        pe = extreme_params(fam, rng)
+        objs.append((f"{fam}{ {k: float(f'{v:.4g}') for k, v in pe.items()} }", M.dist_class(vc, fam)(**pe)))
+    objs.append(("GHM extreme-shape conditional", M.from_description(vc, extreme_description(rng, 3))))
     return objs
 
 
@@ -502,6 +543,22 @@ def make_tasks(ctx, cfgs, hists):
         for cfg in by_n[3]:             # all 384 (a stride would alias with the shape-class enumeration)
             k += 1
             tasks.append(dict(base(cfg), task="ks", rs=rskinds[k % 3], n=nbig if (k % 5 == 0) else 100_000))
+    # exponentiated Weibull with delta 1e-3..1e-2 / generalized gamma with m 1e-3..2e-2 (scipy's rvs
+    # underflows there): univariate, conditional with explicit parameters and in joint models
+    rs4x = ["int", "generator", "none", "int0"]
+    for rep in range(ctx.pick(4, 16)):
+        for fam in ("expweibull", "gengamma"):
+            k += 1
+            sd = int(rng.integers(1, 2**31 - 1))
+            tasks.append(dict(task="ks", n_dim=1, cond=[None], sh=[0], families=[fam], rs=rs4x[k % 4], seed=sd,
+                              n=100_000, params=extreme_params(fam, np.random.default_rng(sd))))
+    for rep in range(ctx.pick(2, 8)):
+        for variant in range(4):
+            k += 1
+            sd = int(rng.integers(1, 2**31 - 1))
+            d_ = extreme_description(np.random.default_rng(sd), variant)
+            tasks.append(dict(task="ks", n_dim=d_["n_dim"], cond=d_["cond"], sh=d_["shapes"], families=d_["families"],
+                              rs=rs4x[k % 4], seed=sd, n=100_000, desc=d_))
     # integer seed 0 (falsy): components sampled by the same mechanism must still be independent --
     # every 2-D configuration and a rotating third of the 3-D ones with all dimensions of ONE family
     same = ["weibull", "expweibull", "lognormal", "normal", "gengamma"]
@@ -587,7 +644,7 @@ def make_tasks(ctx, cfgs, hists):
                             [c_ for c_ in by_n[3] if c_["cond"] == [None, 0, 1] and c_["sh"][1] == 1][:4]):
         tasks.append(dict(base(cfg), task="shape", sizes=sizes, style=["scalar", "fixed"][j % 2]))
     # histories
-    P = 14
+    P = 17
     for j, h in enumerate(hists):
         a = (j + ctx.seed) % P
         b = (a + 1 + (j // P) % (P - 1)) % P
@@ -671,8 +728,8 @@ def run(ctx):
                 "3rd-5th 1e6 in thorough); joint: every TLC-enumerated 2-D configuration (x2/x12) and every 3-D "
                 "configuration (x1/x4), concretised over the 7 families; shapes for n in {1,2,1000,1e5(,1e6)} x 3 "
                 "random_state kinds; every TLC-emitted draw history of length <= 3 over 5 random_state values x 2 "
-                "objects (x 2 sizes in thorough) replayed on a rotating pair out of 14 real objects (7 "
-                "distributions, 7 models incl. scalar / fixed constant parameters). distinct = distinct (call, object/model, random_state, history); "
+                "objects (x 2 sizes in thorough) replayed on a rotating pair out of 17 real objects (9 "
+                "distributions incl. small-shape exponentiated Weibull / generalized gamma, 8 models incl. scalar / fixed constants). distinct = distinct (call, object/model, random_state, history); "
                 "non-trivial = joint: a dependence that varies with the given; history: at least one pair of draws")
     ctx.trusted = ["TLC evaluating spec/Trace_C07.tla (DKW inequality in integer arithmetic)",
                    "the model's own distributions[i].cdf as the probability integral transform",
